@@ -59,7 +59,7 @@ def requests(ctx):
             last = None
             for _ in range(n):
                 t += rng.choice([0, 1, 2])
-                v = struct.pack("<d", rng.choice([0.0, 1.5, -2.0, 1e10])).hex() if (last is None or rng.random() < 0.7) else last
+                v = struct.pack("<d", rng.choice([0.0, -0.0, 0.0, -0.0, 1.5, -2.0, 1e10, float("nan"), float("inf")])).hex() if (last is None or rng.random() < 0.7) else last
                 last = v
                 parts.append(f"{t}={v}")
             rq.append(f"fstw r {','.join(parts)}")
